@@ -6,8 +6,15 @@ use crate::sim::Knobs;
 use serde::{Deserialize, Serialize};
 use std::collections::BTreeMap;
 
+pub mod c01;
+pub mod c05;
+pub mod c06;
+pub mod c07;
 pub mod c09;
+pub mod c12;
+pub mod c16;
 pub mod gen;
+pub mod oracle;
 
 #[derive(Clone, Debug, Serialize, Deserialize)]
 pub struct Case {
@@ -48,6 +55,19 @@ pub trait Property: Sync {
     }
     /// judge a finished run
     fn check(&self, case: &Case, rec: &RunRecord, obs: &dyn Observer) -> Vec<Violation>;
+    /// an optional second scenario (e.g. the serial build) played in the same
+    /// worker; its record is handed to `check_with_reference`
+    fn reference(&self, _case: &Case) -> Option<(Scenario, Knobs, PlayOpts)> {
+        None
+    }
+    fn check_with_reference(
+        &self,
+        _case: &Case,
+        _rec: &RunRecord,
+        _reference: &RunRecord,
+    ) -> Vec<Violation> {
+        Vec::new()
+    }
     /// extra per-run probes (rare-branch counters) for the evidence file
     fn probes(&self, _case: &Case, _rec: &RunRecord) -> BTreeMap<String, u64> {
         BTreeMap::new()
@@ -75,7 +95,15 @@ pub trait Property: Sync {
 }
 
 pub fn all() -> Vec<Box<dyn Property>> {
-    vec![Box::new(c09::C09)]
+    vec![
+        Box::new(c01::C01),
+        Box::new(c05::C05),
+        Box::new(c06::C06),
+        Box::new(c07::C07),
+        Box::new(c09::C09),
+        Box::new(c12::C12),
+        Box::new(c16::C16),
+    ]
 }
 
 pub fn find(id: &str) -> Option<Box<dyn Property>> {
